@@ -41,7 +41,9 @@ DspRdReq(c) == <<IF DspOk(c) THEN KDspR ELSE KOobR, DspByte(c)>>
 DspRdVal(c, v) == IF DspOk(c) THEN v[2] ELSE 0          \* a vetoed read returns 0 (hook)
 DspWrEv(c, w) == <<IF DspOk(c) THEN KDspW ELSE KOobW, DspByte(c), W16(w)>>
 
-\* the reads one Tick issues, <<kind, address>>, in order
+\* the reads one Tick issues, <<kind, address>>, in order.  (Double-word DSP source: the code reads
+\* `ReadWord(l) | (ReadWord(h) << 16)`; C++ leaves the order of the two calls unspecified, the build
+\* under test (g++ -O1) reads l first, and so does this transcription.)
 ReadReqs(ch, ah) ==
     IF ch.sp = 0 THEN
         IF ch.dw # 0 THEN <<DspRdReq(Align2(ch.cs)), DspRdReq(OrOne(ch.cs))>>
@@ -150,13 +152,15 @@ Start == /\ phase = "idle"
          /\ phase' = "run"
          /\ UNCHANGED <<ah, dmem, xmem, log, irq, ticks>>
 
+\* (TLC re-evaluates a LET that sits directly in an action at every use; operator arguments are
+\* evaluated once -- hence TickApply(TickOp(..)) rather than LET r == TickOp(..) IN ..)
+MemVals(reqs) == [i \in 1..Len(reqs) |-> ReadVal(reqs[i])]
+TickApply(r) == /\ ch' = r.ch /\ ah' = r.ah
+                /\ log' = log \o r.ev
+                /\ dmem' = ApplyAllD(dmem, r.ev, 1)
+                /\ xmem' = ApplyAllX(xmem, r.ev, 1)
 Tick == /\ phase = "run" /\ ch.run # 0
-        /\ LET reqs == ReadReqs(ch, ah)
-               r    == TickOp(ch, ah, [i \in 1..Len(reqs) |-> ReadVal(reqs[i])])
-           IN  /\ ch' = r.ch /\ ah' = r.ah
-               /\ log' = log \o r.ev
-               /\ dmem' = ApplyAllD(dmem, r.ev, 1)
-               /\ xmem' = ApplyAllX(xmem, r.ev, 1)
+        /\ TickApply(TickOp(ch, ah, MemVals(ReadReqs(ch, ah))))
         /\ ticks' = ticks + 1
         /\ UNCHANGED <<irq, phase>>
 TickWord  == ch.dw = 0 /\ Tick
